@@ -13,8 +13,19 @@
 
   Everything else a glom call does is per call (C20 / C07), so a call is modelled as an
   *adaptive strategy*: it asks a sequence of queries (parse this text / handler for this
-  (type, op)), each next query depending on the answers so far, and finally produces its
-  outcome from the answers.  The parse function and the uncached handler lookup are parameters.
+  (type, op) in this registry), each next query depending on the answers so far, and finally
+  produces its outcome from the answers.  The parse function and the uncached handler lookup are
+  parameters.
+
+  Registries: a process holds the module-level `TargetRegistry` (index 0) and one per `Glommer`
+  (index i > 0); each has its own registrations and its own memo, `register` on one resets that
+  one's memo only.  The memo key is the *exact* type of the target; a registration may name any
+  type — in particular a base of a type whose handler is already memoised (`TReg` below: types
+  with their MRO, `register` as coded, lookup = nearest registered type in the MRO).
+
+  `Vars` / `ScopeVars` (the per-evaluation variable holder behind `S(v=Vars(...))`, `A.v.x`,
+  `S.globals`) are modelled on a small heap (`VHeap`), because what matters there is which dict
+  *object* is written: `ScopeVars.__init__` builds `self.__dict__ = dict(base)` — a new object.
 -/
 namespace Glom.C06
 
@@ -60,7 +71,7 @@ def getHandler (compute : String × String → Option H) (hc : HCache H) (key : 
 /-- what a call may ask the library's shared state -/
 inductive Query where
   | path (text : String)
-  | handler (ty op : String)
+  | handler (rg : Nat) (ty op : String)      -- `scope[TargetRegistry].get_handler(op, obj)`, registry `rg`
 
 inductive Answer (P H : Type) where
   | path (p : P)
@@ -72,9 +83,12 @@ abbrev Strategy (P H O : Type) := List (Answer P H) → Sum Query O
 /-- the shared state of the library between calls -/
 structure World (P H R : Type) where
   pc : PathCache P := {}
-  hc : HCache H := []
   pathStar : Bool := true
-  reg : R                                   -- the registrations in force
+  reg : Nat → R                             -- the registrations in force, per registry
+  hc : Nat → HCache H := fun _ => []        -- the handler memo of every registry
+
+/-- `f[i] = x` -/
+def setAt {α : Type} (f : Nat → α) (i : Nat) (x : α) : Nat → α := fun j => if j = i then x else f j
 
 variable {R : Type}
 
@@ -88,26 +102,26 @@ def runCached (parse : Bool → String → P) (compute : R → String × String 
     | .inl (.path text) =>
       let (p, pc') := fromText parse maxCache w.pathStar w.pc text
       runCached parse compute maxCache strat fuel { w with pc := pc' } (answers ++ [.path p])
-    | .inl (.handler ty op) =>
-      let (h, hc') := getHandler (compute w.reg) w.hc (ty, op)
-      runCached parse compute maxCache strat fuel { w with hc := hc' } (answers ++ [.handler h])
+    | .inl (.handler rg ty op) =>
+      let (h, hc') := getHandler (compute (w.reg rg)) (w.hc rg) (ty, op)
+      runCached parse compute maxCache strat fuel { w with hc := setAt w.hc rg hc' } (answers ++ [.handler h])
 
 /-- the same call with no caches at all -/
 def runPure (parse : Bool → String → P) (compute : R → String × String → Option H)
-    (strat : Strategy P H O) (pathStar : Bool) (reg : R) : Nat → List (Answer P H) → Option O
+    (strat : Strategy P H O) (pathStar : Bool) (reg : Nat → R) : Nat → List (Answer P H) → Option O
   | 0, _ => none
   | fuel + 1, answers =>
     match strat answers with
     | .inr o => some o
     | .inl (.path text) => runPure parse compute strat pathStar reg fuel (answers ++ [.path (parse pathStar text)])
-    | .inl (.handler ty op) =>
-      runPure parse compute strat pathStar reg fuel (answers ++ [.handler (compute reg (ty, op))])
+    | .inl (.handler rg ty op) =>
+      runPure parse compute strat pathStar reg fuel (answers ++ [.handler (compute (reg rg) (ty, op))])
 
 /-- what happens between calls -/
 inductive HOp (P H O R : Type) where
   | call (strat : Strategy P H O) (fuel : Nat)
   | setStar (b : Bool)                       -- toggling glom.core.PATH_STAR
-  | register (f : R → R)                     -- register()/register_op(): new registrations, memo reset
+  | register (rg : Nat) (f : R → R)          -- register()/register_op() on registry `rg`: new registrations, its memo reset
 
 def stepWorld (parse : Bool → String → P) (compute : R → String × String → Option H) (maxCache : Nat) :
     World P H R → HOp P H O R → Option (Option O) × World P H R
@@ -115,7 +129,7 @@ def stepWorld (parse : Bool → String → P) (compute : R → String × String 
     let (o, w') := runCached parse compute maxCache strat fuel w []
     (some o, w')
   | w, .setStar b => (none, { w with pathStar := b })
-  | w, .register f => (none, { w with reg := f w.reg, hc := [] })
+  | w, .register rg f => (none, { w with reg := setAt w.reg rg (f (w.reg rg)), hc := setAt w.hc rg [] })
 
 /-- run a whole history, collecting the outcome of every call -/
 def runHistory (parse : Bool → String → P) (compute : R → String × String → Option H) (maxCache : Nat) :
@@ -125,5 +139,107 @@ def runHistory (parse : Bool → String → P) (compute : R → String × String
     let (o, w') := stepWorld parse compute maxCache w op
     let (os, w'') := runHistory parse compute maxCache w' rest
     (match o with | some x => x :: os | none => os, w'')
+
+/-! ### concrete registrations: types with their MRO, tagged handlers
+
+  `TargetRegistry.register(target_type, **kw)` stores, for every op of `kw` and every op with an
+  auto-discovery function (`get`, `iterate`), the keyword handler, else the handler already stored
+  for exactly that type, else the auto-discovered one (`getattr` / `iter`: the tag `"default"`).
+  A lookup for an object of exact type `t` finds the handler of the nearest type in `t`'s MRO that
+  has one (for real — non-virtual — subclasses that is what `_get_closest_type` computes; the tree
+  walk itself is C13's subject); `object` is registered by default, so there is always one. -/
+
+abbrev Tag := String
+
+structure TReg where
+  mro : List (String × List String) := []           -- type ↦ its MRO (itself first), as Python computed it
+  entries : List ((String × String) × Tag) := []    -- (type, op) ↦ handler, newest first
+
+def autoOps : List String := ["get", "iterate"]
+
+def regOps (kw : List (String × Tag)) : List String := (kw.map (·.1) ++ autoOps).eraseDups
+
+/-- the handler `register` stores for `op` -/
+def pickTag (entries : List ((String × String) × Tag)) (ty : String) (kw : List (String × Tag)) (op : String) : Tag :=
+  match assocGet kw op with
+  | some h => h
+  | none => match assocGet entries (ty, op) with
+    | some h => h
+    | none => "default"
+
+def newEntries (entries : List ((String × String) × Tag)) (ty : String) (kw : List (String × Tag)) :
+    List ((String × String) × Tag) :=
+  (regOps kw).map (fun op => ((ty, op), pickTag entries ty kw op))
+
+def TReg.register (r : TReg) (ty : String) (kw : List (String × Tag)) : TReg :=
+  { r with entries := newEntries r.entries ty kw ++ r.entries }
+
+/-- the first type of an MRO with a handler for `op` -/
+def firstRegistered (entries : List ((String × String) × Tag)) (op : String) : List String → Option Tag
+  | [] => none
+  | c :: cs => match assocGet entries (c, op) with
+    | some h => some h
+    | none => firstRegistered entries op cs
+
+def TReg.mroOf (r : TReg) (ty : String) : List String := (assocGet r.mro ty).getD [ty]
+
+/-- the uncached lookup: nearest registered type in the MRO, else `object`'s default handler -/
+def TReg.compute (r : TReg) (key : String × String) : Option Tag :=
+  match firstRegistered r.entries key.2 (r.mroOf key.1) with
+  | some h => some h
+  | none => some "default"
+
+/-! ### `Vars` / `ScopeVars` on a heap of dict objects
+
+  `Vars.__init__` keeps the caller's mapping (`self.base = base`, `self.defaults = kw`);
+  `Vars.glomit` returns `ScopeVars(self.base, self.defaults)`; `ScopeVars.__init__` does
+  `self.__dict__ = dict(base); self.__dict__.update(defaults)`; `A.v.name` is `setattr` on the
+  ScopeVars object, i.e. a write into *its* `__dict__`; `S.v.name` reads it. -/
+
+abbrev VDict (V : Type) := List (String × V)
+
+def dSet {V : Type} (d : VDict V) (k : String) (v : V) : VDict V :=
+  match d with
+  | [] => [(k, v)]
+  | (k', v') :: r => if k' == k then (k', v) :: r else (k', v') :: dSet r k v
+
+/-- the dict objects alive: address = position -/
+abbrev VHeap (V : Type) := List (VDict V)
+
+def hSet {V : Type} : VHeap V → Nat → VDict V → VHeap V
+  | [], _, _ => []
+  | _ :: r, 0, d => d :: r
+  | x :: r, n + 1, d => x :: hSet r n d
+
+/-- `ScopeVars(base, defaults)`: a new dict object `dict(base)` updated with `defaults`; returns
+    its address -/
+def scopeVarsInit {V : Type} (h : VHeap V) (base : Nat) (defaults : VDict V) : VHeap V × Nat :=
+  let d := defaults.foldl (fun d kv => dSet d kv.1 kv.2) (h.getD base [])
+  (h ++ [d], h.length)
+
+/-- what an evaluation does with its variable holder -/
+inductive VOp (V : Type) where
+  | write (name : String) (v : V)      -- `A.v.name`
+  | read (name : String)               -- `S.v.name`
+
+/-- run the reads / writes of one evaluation on the ScopeVars at address `a` -/
+def runVOps {V : Type} : VHeap V → Nat → List (VOp V) → VHeap V × List (Option V)
+  | h, _, [] => (h, [])
+  | h, a, .write n v :: rest => runVOps (hSet h a (dSet (h.getD a []) n v)) a rest
+  | h, a, .read n :: rest =>
+    let (h', rs) := runVOps h a rest
+    (h', assocGet (h.getD a []) n :: rs)
+
+/-- one evaluation of a spec holding `Vars(<dict at base>, **defaults)` -/
+def evalVars {V : Type} (h : VHeap V) (base : Nat) (defaults : VDict V) (ops : List (VOp V)) :
+    VHeap V × List (Option V) :=
+  let (h1, a) := scopeVarsInit h base defaults
+  runVOps h1 a ops
+
+/-- the same evaluation without a heap: a value-level dict -/
+def runVOpsPure {V : Type} : VDict V → List (VOp V) → List (Option V)
+  | _, [] => []
+  | d, .write n v :: rest => runVOpsPure (dSet d n v) rest
+  | d, .read n :: rest => assocGet d n :: runVOpsPure d rest
 
 end Glom.C06
